@@ -618,11 +618,17 @@ def body_block(c):
         if not vec_close(gf, gq + gs, cond + np.abs(gs)):
             res.fail("gradient_sum", {"row": r, "full": gf[:6].tolist(), "parts": (gq + gs)[:6].tolist()})
         # curvature used for the Gaussian proposal: Q + diag(ss exp(-gamma)) = -Hessian
-        J = arr(op.jacobian(ssrow, grow, Qrow))
-        Jo = Qo + np.diag(sso * np.exp(-gam[r]))
-        errj = np.max(np.abs(J - Jo) / np.maximum(np.abs(Jo), 1e-300 + 1e-13 * np.max(np.abs(Jo)))) if J.shape == Jo.shape else np.inf
+        J = arr(op.jacobian(torch.zeros(m), grow, Qrow))
+        errj = np.max(np.abs(J - Qo) / np.maximum(np.abs(Qo), 1e-300 + 1e-13 * np.max(np.abs(Qo)))) if J.shape == Qo.shape else np.inf
         if not errj <= TOL:
-            res.fail("pubQ_values:jacobian", {"row": r, "relerr": float(errj), "operator": J[:3, :3].tolist(), "documented": Jo[:3, :3].tolist()})
+            res.fail("pubQ_values:jacobian", {"row": r, "relerr": float(errj), "operator": J[:3, :3].tolist(), "documented": Qo[:3, :3].tolist()})
+        Jd = arr(op.jacobian(ssrow, grow, torch.zeros(m, m)))
+        dio = sso * np.exp(-gam[r])
+        if Jd.shape != (m, m) or not vec_close(np.diag(Jd), dio, 0.0) or np.any(Jd[~np.eye(m, dtype=bool)] != 0.0):
+            res.fail("stats_jacobian", {"row": r, "operator_diagonal": np.diag(Jd)[:6].tolist() if Jd.ndim == 2 else None, "documented": dio[:6].tolist()})
+        Jf = arr(op.jacobian(ssrow, grow, Qrow))
+        if Jf.shape != (m, m) or not np.allclose(Jf, J + Jd, rtol=1e-12, atol=0.0):
+            res.fail("jacobian_sum", {"row": r, "full": Jf[:3, :3].tolist() if Jf.ndim == 2 else None})
 
     # ---- the operator assigns a proposed precision and takes the matrix again
     new = c["new_tau"]
